@@ -68,11 +68,38 @@ NEEDS2 = {
  "C19-3": ("AddEdgeWeighted returns early when the weight is 'unchanged'", "weight 0 on an absent edge (absent reads as 0)"),
  "C19-4": ("Remove drops the maps when the graph becomes empty", "a reversed view obtained before the graph is drained to zero vertices, then a further mutation"),
 }
+NEEDS3 = {
+ "C03-3": ("isDirectInput narrowed to 'its only out-edge is the root'", "every value vertex also has an edge to its type-only output, so no input is direct any more: the exact named value loses against a same-named converter fed by a NamedSubtype source (order-dependent, ~30%)"),
+ "C03-4": ("the edge arg:T/sub -> named value of T/sub weighs 1 instead of 5", "a type-only parameter with a subtype, its exact TypedSubtype input, and a provider/converter producing a named value of that type and subtype"),
+ "C04-3": ("a memoized FuncOnce converter skips the error check on later uses", "a run-once converter that failed on its first run, needed by a second Call: the error is swallowed (reported by C11's differential; C04's scenarios are single calls)"),
+ "C04-4": ("Call replaces a late *ErrArgumentUnsatisfied by a completed copy", "a converter failing with an error that is or wraps an *ErrArgumentUnsatisfied with empty Inputs/Converters"),
+ "C07-3": ("the discounted graph copy is taken once per reachTarget", "two named parameters of one function converted from competing same-typed inputs, and an unlucky order"),
+ "C07-4": ("the name discount is restricted to values of the parameter's subtype", "a *subtyped* named parameter needing conversion, competing same-typed inputs, an unlucky order"),
+ "C10-3": ("Convert returns an exactly typed input directly without building the call graph", "a typed input of the target type together with a failing ConverterGen"),
+ "C10-4": ("Convert turns an untyped-nil result into an error", "an interface-typed target, a converter declared to return an interface, returning nil without error. NOT REPORTED: converters returning nil interface values are outside the alphabet (every synthesised value carries a provenance term)"),
+ "C14-3": ("parsed struct tags are cached per tag string, including the resolved name", "a tag without a name (e.g. `,subtype=X`) reused on differently named fields: later fields report the first field's name"),
+ "C14-4": ("the mixed-signature check only looks at position 0", "a marker struct mixed with other parameters/results, not in first position"),
+ "C15-3": ("Func.outputValues looks type-only outputs up with TypedSubtype, which also matches named values", "a converter with a named and a type-only output of one type (named first) feeding a differently named parameter through the type-only vertex (reported by C01's provenance oracle on the multiout tier; built and ordinary functions are equally wrong, so C15's differential is silent)"),
+ "C15-4": ("ValueSet.SignatureValues skips zero values", "an interface-typed entry holding the zero value of a concrete type: it reads back as nil"),
+ "C16-3": ("Func.argBuilder merges defaults and call options with append(f.callOpts, opts...)", "defaults in a slice with spare capacity shared by two functions, f1.Call(x) before f2.Call()"),
+ "C16-4": ("NamedSubtype loses its empty-subtype shortcut", "NamedSubtype(n, v, \"\") followed by Named(n, w): the namedSub spelling always wins"),
+ "C17-3": ("the FuncOnce memo moves into a struct shared with Redefine's copies", "Redefine planning through a not-yet-run FuncOnce converter memoizes the zero result into the real function (reported by C09; C17's cases have no Redefine)"),
+ "C17-4": ("Result.Err treats a typed-nil final error as nil", "a final error that is a non-nil interface holding a nil pointer"),
+ "C18-3": ("the visited set is replaced by a distance comparison", "two unreachable vertices with an edge into the reachable part (int32 wrap), and a favourable pop order"),
+ "C18-4": ("a zero-weight fast path swaps instead of heap.Fix", "a zero-weight improving edge, a finite-key root and a heap of >= 6 entries in a particular layout"),
+ "C20-3": ("Tarjan's inStack compares DFS indexes", "a cross edge into a finished sibling subtree, under a particular iteration order"),
+ "C20-4": ("KahnSort panics only if Cycles() is non-empty", "a graph whose only residual cycles are self-loops"),
+}
 NEEDS.update(NEEDS2)
+NEEDS.update(NEEDS3)
 SRC = {}
 for k in NEEDS2:
     prop, n = k.split("-")
     SRC[k] = ("/tmp/seed2/%s" % prop, str(int(n) - 2), "second round: asked for changes needing two or three conditions at once")
+
+for k in NEEDS3:
+    prop, n = k.split("-")
+    SRC[k] = ("/tmp/seed3/%s" % prop, str(int(n) - 2), "second round: asked for changes needing two or three conditions at once")
 
 def parse(path):
     res = {}
